@@ -35,6 +35,7 @@ import (
 	"strings"
 	"testing"
 
+	"github.com/tucats/ego/internal/caches"
 	"github.com/tucats/ego/internal/cli/settings"
 	"github.com/tucats/ego/internal/cli/ui"
 	"github.com/tucats/ego/internal/defs"
@@ -221,7 +222,27 @@ func TestC44(t *testing.T) {
 		}
 	}
 
-	f := mustFixture(t, srvfix.Options{Arena: arena, Users: users, Settings: startSettings})
+	// secrets reachable through Ego code the server runs: a generated service (installed before the start)
+	// and programs for POST /admin/run open every stored DSN, open provider URLs that carry a password,
+	// and read every secret setting through the runtime's profile functions
+	probeDSNs := []string{"c40db", "c40priv", "c44pg", "c44pgx", "c44extra", "nosuch"}
+	probeSettings := []string{}
+
+	for k := range secretSettings {
+		probeSettings = append(probeSettings, k)
+	}
+
+	probeSettings = append(probeSettings, defs.LogonUserdataKeySetting, "ego.server.token")
+	sort.Strings(probeSettings)
+
+	svcCanary := c44Safe(rng, "Sv")
+	svcCanary2 := c44Safe(rng, "Sw")
+	serviceURLs := []string{"postgres://svcuser:" + svcCanary + "@127.0.0.1:5432/db?sslmode=disable", "postgres://svcuser:p%2Fq" + svcCanary2 + "@127.0.0.1:5432/db"}
+	set.add("service-embedded-dsn-password", svcCanary)
+	set.add("service-embedded-dsn-password", svcCanary2)
+
+	f := mustFixture(t, srvfix.Options{Arena: arena, Users: users, Settings: startSettings,
+		Services: map[string]string{"services/c44/probe.ego": c44ProbeService(probeDSNs, probeSettings, serviceURLs)}})
 
 	// set after start: the key that encrypts the user/DSN files on their next flush
 	userdataKey := c44New(rng, "Uk")
@@ -334,6 +355,24 @@ func TestC44(t *testing.T) {
 		f.Do(srvfix.Request{Method: "PUT", Path: "/dsns/" + name + "/tables/t1/rows", Header: adminHdr(), Body: []byte(`{"id":1,"name":"row1"}`)})
 	}
 
+	// stored DSNs of a provider whose connection string carries the password (opening postgres is lazy and
+	// the host is this machine: nothing leaves it). One password is legal in a URL as it stands, one is not.
+	for name, pw := range map[string]string{"c44pg": c44Safe(rng, "Pg"), "c44pgx": c44New(rng, "Px")} {
+		dsnPw[name] = pw
+		body, _ := json.Marshal(map[string]any{"name": name, "provider": "postgres", "database": "pgdb", "host": "127.0.0.1", "port": 5432, "user": "pguser", "password": pw})
+		resp := f.Do(srvfix.Request{Method: "POST", Path: "/dsns/", Header: adminHdr(), Body: body})
+
+		if resp.Status >= 300 || resp.Panic != "" {
+			t.Fatalf("create DSN %s: %d %s %s", name, resp.Status, resp.Body, resp.Panic)
+		}
+
+		set.add("dsn-password:"+name, pw)
+
+		if d, err := dsns.DSNService.ReadDSN(0, "admin", name, true); err == nil && d.Password != "" && d.Password != defs.ElidedPassword {
+			set.add("dsn-password-stored:"+name, d.Password)
+		}
+	}
+
 	r.Count("canaries.planted", int64(len(set.list)))
 	r.Count("canaries.name-only-markers", int64(len(namedSet.list)))
 
@@ -400,6 +439,20 @@ func TestC44(t *testing.T) {
 		body, _, err := clientBody(resp)
 		if err != nil {
 			body = resp.Body
+		}
+
+		if q.route == "POST /admin/run" {
+			if bytes.Contains(body, []byte(`"output"`)) {
+				r.Count("events.ego_programs_with_output", 1)
+			}
+
+			if bytes.Contains(body, []byte("Code sessions exceeded")) {
+				r.Count("events.ego_programs_refused", 1)
+			}
+		}
+
+		if os.Getenv("C44_DEBUG") != "" && (q.route == "POST /admin/run" || q.route == "GET /services/c44/probe") {
+			fmt.Printf("DEBUG %s as %s -> %d %s\n", q.route, q.user, resp.Status, vh.Trunc(string(body), 700))
 		}
 
 		// what the request itself carried
@@ -642,6 +695,65 @@ func TestC44(t *testing.T) {
 		}
 	}
 
+	// every secret setting under spellings a lenient lookup might normalise
+	configSpellings := func(user string) {
+		names := []string{}
+		for n := range secretSettings {
+			names = append(names, n)
+		}
+
+		names = append(names, "ego.server.token")
+		sort.Strings(names)
+
+		for _, n := range names {
+			mixed := []rune(n)
+			for i := range mixed {
+				if i%2 == 0 {
+					mixed[i] = []rune(strings.ToUpper(string(mixed[i])))[0]
+				}
+			}
+
+			spellings := [][]string{
+				{" " + n}, {n + " "}, {" " + n + " "}, {"\t" + n}, {n + "\t"}, {n + "\n"}, {"\n" + n}, {"\r\n" + n + "\r\n"}, {"\u00a0" + n}, {n + "\u00a0"}, {"\u2003" + n + "\u3000"}, {"\ufeff" + n},
+				{strings.ToUpper(n)}, {string(mixed)}, {strings.Title(n)}, {n + "."}, {"." + n}, {n + ".."}, {strings.ReplaceAll(n, ".", "..")},
+				{strings.ReplaceAll(n, ".", "%2E")}, {strings.ReplaceAll(n, ".", "%2e")}, {url.QueryEscape(n)}, {strings.Replace(n, "e", "%65", 1)}, {n + "%20"}, {n + "%00"}, {n + "\x00"}, {"\"" + n + "\""}, {"'" + n + "'"},
+				{strings.ReplaceAll(n, ".", "_")}, {strings.ReplaceAll(n, ".", "-")}, {strings.ReplaceAll(n, ".", "/")}, {strings.TrimPrefix(n, "ego.")}, {"ego." + n}, {n + "=x"}, {n + ",ego.server.insecure"}, {n + ";"}, {"$" + n}, {"${" + n + "}"}, {"{{" + n + "}}"},
+				{n, n}, {n, strings.ToUpper(n), " " + n}, {"ego.server.insecure", n, "ego.compiler.optimize"}, {"ego.server.insecure", " " + n + " ", "no.such.setting", strings.ToUpper(n)},
+			}
+
+			for _, list := range spellings {
+				b, _ := json.Marshal(list)
+				doReq(req{route: "POST /admin/config", user: user, method: "POST", path: "/admin/config", body: b})
+				r.Count("events.config_name_spellings", 1)
+			}
+		}
+	}
+
+	// Ego programs run by the server on the caller's behalf, and the generated service
+	programs := c44Programs(probeDSNs, probeSettings, append(append([]string{}, serviceURLs...), "postgres://runuser:"+c44Safe(rng, "Ru")+"@127.0.0.1:5432/db?sslmode=disable"))
+
+	codeRequests := func(user string) {
+		for _, code := range programs {
+			b, _ := json.Marshal(map[string]any{"code": code})
+			doReq(req{route: "POST /admin/run", user: user, method: "POST", path: "/admin/run", body: b})
+			r.Count("events.ego_programs_run", 1)
+
+			// every run without a session id opens a new code session (at most 20 are kept for an hour): drop them
+			caches.Purge(caches.SymbolTableCache)
+		}
+
+		for _, acc := range []string{"application/json", "text/plain"} {
+			doReq(req{route: "GET /services/c44/probe", user: user, method: "GET", path: "/services/c44/probe", header: map[string]string{"Accept": acc}})
+			r.Count("events.ego_service_calls", 1)
+		}
+
+		for _, name := range []string{"c44pg", "c44pgx"} {
+			for _, p := range []string{"/dsns/" + name, "/dsns/" + name + "/@permissions", "/dsns/" + name + "/tables/", "/dsns/" + name + "/@metadata"} {
+				doReq(req{route: "GET /dsns/{{dsn}}/...(postgres)", user: user, method: "GET", path: p})
+			}
+		}
+	}
+
 	if c := vh.ReplayCase(); c != nil {
 		var rc struct {
 			Route, User, Method, Path, Body, Phase string
@@ -652,7 +764,7 @@ func TestC44(t *testing.T) {
 		}
 
 		if rc.Phase != "" && rc.Phase != "default-loggers" {
-			for _, l := range []string{"AUTH", "REST", "USER", "TOKEN", "ROUTE", "APP", "INFO"} {
+			for _, l := range []string{"AUTH", "REST", "USER", "TOKEN", "ROUTE", "APP", "INFO", "DB", "SQL", "TABLES", "SERVICES"} {
 				if id := ui.LoggerByName(l); id >= 0 {
 					ui.Active(id, true)
 				}
@@ -679,6 +791,13 @@ func TestC44(t *testing.T) {
 	runPhase := func(first bool) {
 		sweep("admin", first || thorough, first || thorough)
 		configRequests("admin")
+		codeRequests("admin")
+
+		if first || thorough {
+			configSpellings("admin")
+			codeRequests("u-code")
+		}
+
 		logRequests()
 
 		others := []string{"alice", "u-server-admin", ""}
@@ -705,7 +824,7 @@ func TestC44(t *testing.T) {
 
 	runPhase(true)
 
-	for _, l := range []string{"AUTH", "REST", "USER", "TOKEN", "ROUTE", "APP", "INFO"} {
+	for _, l := range []string{"AUTH", "REST", "USER", "TOKEN", "ROUTE", "APP", "INFO", "DB", "SQL", "TABLES", "SERVICES"} {
 		if id := ui.LoggerByName(l); id >= 0 {
 			ui.Active(id, true)
 		}
@@ -736,6 +855,10 @@ func TestC44(t *testing.T) {
 
 	if r.Evaluations == 0 {
 		t.Fatal("observed nothing")
+	}
+
+	if r.Counters["events.ego_programs_with_output"]*2 < r.Counters["events.ego_programs_run"] {
+		r.Inconcl(fmt.Sprintf("only %d of %d Ego programs produced output", r.Counters["events.ego_programs_with_output"], r.Counters["events.ego_programs_run"]))
 	}
 
 	if r.Counters["control.canary_detected_in_responses"] == 0 {
@@ -789,4 +912,114 @@ func sortedBoolKeys(m map[string]bool) []string {
 	sort.Strings(ks)
 
 	return ks
+}
+
+// c44Safe makes a canary that is legal inside a URL's userinfo (letters and digits only).
+func c44Safe(rng *mrand.Rand, tag string) string {
+	const al = "abcdefghijklmnopqrstuvwxyzABCDEFGHIJKLMNOPQRSTUVWXYZ0123456789"
+
+	b := []byte("cS" + tag + "7")
+	for i := 0; i < 20; i++ {
+		b = append(b, al[rng.Intn(len(al))])
+	}
+
+	return string(b)
+}
+
+func c44Quote(list []string) string {
+	q := []string{}
+	for _, s := range list {
+		q = append(q, fmt.Sprintf("%q", s))
+	}
+
+	return strings.Join(q, ", ")
+}
+
+// c44EgoHelpers is Ego source shared by the probe service and the programs sent to POST /admin/run:
+// open a database and print the returned value every way the language offers; read a setting.
+const c44EgoHelpers = `
+func openAndShow(driver string, constr string) string {
+    out := ""
+    try {
+        db, err := sql.Open(driver, constr)
+        out = out + fmt.Sprintf("open %s err=%v\n", driver, err)
+        if err == nil {
+            out = out + fmt.Sprintf("v=%v\nplusv=%+v\nconstr=%s rowcount=%v mode=%v\n", db, db, db.Constr, db.Rowcount, db.StructMode)
+            out = out + fmt.Sprintf("str=%s json=%s\n", string(db.Constr), json.Marshal(db.Constr))
+            db.Close()
+        }
+    } catch (e) {
+        out = out + fmt.Sprintf("caught %v\n", e)
+    }
+    return out
+}
+
+func setting(name string) string {
+    out := ""
+    try {
+        v, e := profile.Get(name)
+        out = fmt.Sprintf("setting %s=%v err=%v\n", name, v, e)
+    } catch (e) {
+        out = fmt.Sprintf("setting %s caught %v\n", name, e)
+    }
+    return out
+}
+`
+
+// c44ProbeService is the generated service installed as lib/services/c44/probe.ego.
+func c44ProbeService(dsnNames, settingNames []string, directURLs []string) string {
+	return `@endpoint get path="/services/c44/probe" authenticated
+
+import "http"
+import "sql"
+import "fmt"
+import "json"
+import "profile"
+import "cipher"
+` + c44EgoHelpers + `
+func handler(req http.Request, w *http.ResponseWriter) {
+    out := ""
+    for _, n := range []string{` + c44Quote(dsnNames) + `} {
+        out = out + openAndShow("dsn", n)
+    }
+    for _, u := range []string{` + c44Quote(directURLs) + `} {
+        out = out + openAndShow("postgres", u)
+    }
+    for _, n := range []string{` + c44Quote(settingNames) + `} {
+        out = out + setting(n)
+    }
+    out = out + fmt.Sprintf("config=%v\nkeys=%v\n", profile.Config(), profile.Keys())
+    t := cipher.New(req.Username, "probe")
+    out = out + fmt.Sprintf("token=%v extract=%v\n", t, cipher.Extract(t))
+    out = out + fmt.Sprintf("user=%s perms=%v auth=%v headers=%v\n", req.Username, req.Permissions, req.Authentication, req.Headers)
+    w.WriteHeader(200)
+    w.Write(out)
+}
+`
+}
+
+// c44Programs are the programs sent to POST /admin/run: one per DSN, per direct URL and per setting (so a
+// failure of one does not hide the others), plus the whole-configuration and token functions.
+func c44Programs(dsnNames, settingNames []string, directURLs []string) []string {
+	head := "import \"sql\"\nimport \"json\"\nimport \"profile\"\nimport \"cipher\"\n" + c44EgoHelpers
+	out := []string{}
+
+	for _, n := range dsnNames {
+		out = append(out, head+fmt.Sprintf("fmt.Print(openAndShow(\"dsn\", %q))\n", n))
+		out = append(out, fmt.Sprintf("import \"sql\"\ndb, err := sql.Open(\"dsn\", %q)\nfmt.Println(err)\nfmt.Println(db)\nfmt.Println(db.Constr)\nr, e := db.Query(\"select 1\")\nfmt.Println(r, e)\n", n))
+	}
+
+	for _, u := range directURLs {
+		out = append(out, head+fmt.Sprintf("fmt.Print(openAndShow(\"postgres\", %q))\n", u))
+	}
+
+	for _, n := range settingNames {
+		out = append(out, head+fmt.Sprintf("fmt.Print(setting(%q))\n", n))
+	}
+
+	out = append(out, "import \"profile\"\nfmt.Println(profile.Config())\nfmt.Println(profile.Keys())\n")
+	out = append(out, "import \"profile\"\nc := profile.Config()\nfor k, v := range c {\n    fmt.Printf(\"%s=%s\\n\", k, v)\n}\n")
+	out = append(out, "import \"cipher\"\nt := cipher.New(\"alice\", \"probe\")\nfmt.Println(t)\nfmt.Println(cipher.Extract(t))\nfmt.Println(cipher.Validate(t))\n")
+
+	return out
 }
